@@ -73,8 +73,8 @@ type refSet struct {
 	claimed   map[string]bool
 	peerClaim map[string]string
 	maj23     *types.BlockID
-	atMaj     []bool   // counted set of the majority block at the moment it was reached
-	replaced  []bool   // validator offered a valid conflicting vote for the majority block after it was reached
+	atMaj     []bool              // counted set of the majority block at the moment it was reached
+	replaced  []bool              // validator offered a valid conflicting vote for the majority block after it was reached
 	validSig  []map[string][]byte // per validator: block -> signature of a validly signed offered vote
 
 	// metrics
